@@ -26,7 +26,9 @@ RULE = ("(1) T2: every ptw_dict entry on a float grid over its valid range incl.
         "ptw/lin/sum/vdot/getKey/putKey/chain/sqnorm/quad/gauss) over single and multi-domains, dyadic inputs, "
         "with/without want_metric, built with the REAL operators and re-evaluated with Linearization arithmetic and complex "
         "inputs; (3) auxiliary stream outside the model (Linearization.outer, MultiLinearEinsum/LinearEinsum incl. static "
-        "fields, integrate) against NumPy references; non-trivial = tree contains a non-linear node; "
+        "fields, integrate) against NumPy references, and Gaussian energies with complex data on complex-valued models (complex "
+        "scalings/diagonals/dense matrices, FFT, holomorphic functions): value, real-linear Jacobian, gradient, metric = J^H N J "
+        "for every mechanism (Linearization, get_metric_at, transformation), Hermitian, PSD; non-trivial = tree contains a non-linear node; "
         "distinct by canonical (tree, input, flag)")
 TRUSTED_BASE = [
     "Lean 4.33 kernel + Mathlib real analysis; axioms propext/Classical.choice/Quot.sound only (audited every run)",
@@ -438,6 +440,13 @@ def complex_oracle(case):
 
 
 def shrink(case):
+    if case.get("aux") == "cmetric":
+        for i in range(len(case["steps"])):
+            if len(case["steps"]) > 1:
+                yield dict(case, steps=case["steps"][:i] + case["steps"][i + 1:])
+        if case.get("scale_lh") is not None:
+            yield dict(case, scale_lh=None)
+        return
     if "aux" in case:
         for key in ("xa", "xb", "x"):
             if key in case and len(case[key]) > 1:
@@ -486,6 +495,7 @@ def run(ctx):
         (aux if "aux" in c else cases).append(c)
     # anchored mechanisms outside the Lean model (Linearization.outer, einsum.py, integrate): oracle on the real code
     aux += AUX.gen(ctx.rng, ctx.n(120, 800))
+    aux += AUX.gen_cmetric(ctx.rng, ctx.n(70, 600))
     for c in aux:
         ctx.stat("aux:" + c["aux"])
         ctx.case(c, nontrivial=True)
